@@ -419,10 +419,21 @@ def stage_find_model(ctx: Ctx, progs):
         ctx.tick(('find-model', src), 'find-model:program')
         terms.append('let t := ' + tree + ' in ' + ' && '.join(f'on_eqb (find_contains t {a} {b}) {"None" if r is None else "(Some " + str(r) + ")"}' for a, b, r, _ in exp))
         meta.append({'src': src, 'spans': len(exp)})
+        exp_m = []
+        for (ln, col, eln, ecol) in spans:
+            for mname, mval in (('MTop', 'top'), ('MStrict', False)):
+                try:
+                    r = root.find_contains_loc(ln, col, eln, ecol, mval)
+                except Exception as e:
+                    ctx.violation(f'find-raise|{type(e).__name__}', 'find_contains_loc raised', {'src': src, 'span': [ln, col, eln, ecol], 'allow_exact': mval, 'error': repr(e)[:200]})
+                    continue
+                exp_m.append((mname, lin(ln, col), lin(eln, ecol), None if r is None else ids[id(r)]))
+        terms.append('let t := ' + tree + ' in ' + ' && '.join(f'on_eqb (find_contains_m {m_} t {a} {b}) {"None" if r is None else "(Some " + str(r) + ")"}' for m_, a, b, r in exp_m))
+        meta.append({'src': src, 'allow_exact_top_and_False_spans': len(exp_m)})
         terms.append(f'wf {tree} || true')       # evaluated for the count below
         meta.append({'src': src, 'wf': True})
     failed = coq_eval_bools('C06_find', FHDR, terms, shard=12)
-    ctx.correspondence('models/FindLoc.v find_contains / find_in == FST.find_contains_loc / find_in_loc on encoded trees (node spans, their ends, shortened spans, random spans)', len(terms) // 3, [meta[i] for i in failed])
+    ctx.correspondence("models/FindLoc.v find_contains / find_contains_m (allow_exact 'top', False) / find_in == FST.find_contains_loc / find_in_loc on encoded trees (node spans, their ends, shortened spans, random spans)", len(terms) // 4, [meta[i] for i in failed])
 
 
 def run(ctx: Ctx):
